@@ -48,6 +48,7 @@ type World struct {
 	siteCache []*siteInfo
 	recording, mayRecord map[*ssa.Function]bool
 	advancing map[*ssa.Function]bool
+	lexDeep     *lbEngine
 	mustAdv     map[*ssa.Function]bool
 	mustAdvLeak map[*ssa.Function]*ssa.BasicBlock
 }
